@@ -32,6 +32,7 @@ MODULES = [
     "orderbook",
     "scaled",
     "roles",
+    "degrees",
 ]
 
 
